@@ -45,6 +45,63 @@ def hexs(parts):
     return ",".join(p.hex() if p else "-" for p in parts)
 
 
+def bytestream_scenario(args):
+    """reliable agents over ICE-TCP in bytestream mode (`bytestream-tcp`): the receiver has no I/O callback and reads with
+    nice_agent_recv_messages_nonblocking into ONE message scattered over exactly-sized buffers of random sizes, while several
+    frames are already pending.  The bytes gathered from the buffers, in order, must be exactly the stream that was sent."""
+    exe, seed, tier = args
+    import random
+    rng = random.Random(f"C02bs/{seed}")
+    s = simlib.Sim(exe)
+    bad = []
+    sent = b""
+    got = b""
+    try:
+        s.op(f"net seed {seed}"); s.op("net trace 0"); s.op("net latency 1 1")
+        s.op("new A ctrl=1 compat=0 opts=2 icetcp=1 iceudp=0 bytestream=1")
+        s.op("new B ctrl=0 compat=0 opts=2 icetcp=1 iceudp=0 bytestream=1")
+        for ag in "AB":
+            s.op(f"stream {ag} 1"); s.op(f"attach {ag} 1"); s.op(f"gather {ag} 1")
+        s.op("run 100")
+        for st in ("creds A 1 B 1", "creds B 1 A 1", "cands A 1 1 B 1", "cands B 1 1 A 1"):
+            s.op(st)
+        s.op("settle 300"); s.op("runidle 20000"); s.op("settle 300"); s.op("run 500")
+        if simlib.parse_q(s.op("q A 1 1")[1])["state"] != "READY" or simlib.parse_q(s.op("q B 1 1")[1])["state"] != "READY":
+            return dict(seed=seed, transport="bytestream", bad=[], script=s.script, nmsg=0, model_lines=[], ready=False)
+        s.op("detach B 1 1")
+        for rnd in range(rng.randint(3, 7)):
+            frames = [bytes(rng.randrange(256) for _ in range(rng.choice([1, 2, 9, 10, 12, 30, 100, 700])))
+                      for _ in range(rng.randint(1, 4))]
+            for f in frames:
+                st = s.op(f"send A 1 1 {f.hex()}")[1]
+                if "ret " in st and "err" not in st:
+                    sent += f
+            s.op("settle 150"); s.op("run 20")
+            for _ in range(8):
+                layout = ",".join(str(rng.choice([1, 2, 3, 10, 11, 20, 64, 1000])) for _ in range(rng.randint(1, 4)))
+                st = s.op(f"recvnb B 1 1 {layout}")[1]
+                m = re.match(r"ok ret (-?\d+)(?: err \S+)? len (\d+) data (\S+)", st)
+                if not m or int(m.group(1)) <= 0:
+                    break
+                got += bytes.fromhex(m.group(3)) if m.group(3) != "-" else b""
+        s.op("settle 200"); s.op("run 50")
+        for _ in range(40):
+            st = s.op("recvnb B 1 1 4096")[1]
+            m = re.match(r"ok ret (-?\d+)(?: err \S+)? len (\d+) data (\S+)", st)
+            if not m or int(m.group(1)) <= 0:
+                break
+            got += bytes.fromhex(m.group(3)) if m.group(3) != "-" else b""
+        if got != sent:
+            k = next((i for i in range(min(len(got), len(sent))) if got[i] != sent[i]), min(len(got), len(sent)))
+            bad.append(("bytestream", f"bytes gathered from the scatter buffers differ from the stream sent: {len(got)} received, {len(sent)} sent, "
+                                      f"first difference at offset {k} (got {got[k:k + 6].hex() or '<end>'}, sent {sent[k:k + 6].hex() or '<end>'})"))
+        return dict(seed=seed, transport="bytestream", bad=bad, script=s.script, nmsg=len(sent), model_lines=[], ready=True)
+    except simlib.SimDied as e:
+        return dict(seed=seed, transport="bytestream", bad=[("crash", str(e)[-1200:])], script=s.script, nmsg=0, model_lines=[], ready=False)
+    finally:
+        s.close()
+
+
 def scenario(args):
     exe, seed, tier = args
     import random
@@ -244,6 +301,7 @@ def run(tier, seed):
             corp = sc.run_corpus(exe, "C02", ofail)
             n = 120 if tier == "quick" else 2500
             res = simlib.run_parallel(scenario, [(exe, seed * 100000 + i, tier) for i in range(n)])
+            res += simlib.run_parallel(bytestream_scenario, [(exe, seed * 100000 + i, tier) for i in range(max(n // 6, 12))])
             kinds = {}
             split_lines, split_expected = [], []
             for r in res:
